@@ -31,6 +31,15 @@ fn main() {
             eprintln!("cannot parse {path}: {e}");
             std::process::exit(2)
         });
+        if rf.variant.as_deref() == Some("alt") && !cfg!(feature = "alt") {
+            // the case belongs to the other build variant: hand over
+            let Ok(bin) = std::env::var("MJV_ALT") else {
+                eprintln!("replay needs the alt build (run through ./check)");
+                std::process::exit(2)
+            };
+            let st = std::process::Command::new(bin).args(&args).status().expect("spawn alt");
+            std::process::exit(st.code().unwrap_or(2));
+        }
         let tier = if rf.tier == "thorough" { Tier::Thorough } else { Tier::Quick };
         let mut ctx = Ctx::new(id, tier, seed);
         ctx.level = level;
@@ -50,6 +59,11 @@ fn main() {
     };
     let mut ctx = Ctx::new(id, tier, seed);
     ctx.level = level;
+    ctx.sub = args.get(2).map(|s| s.as_str()) == Some("--sub");
     run(&mut ctx);
+    if ctx.sub {
+        println!("EXPORT {}", ctx.export());
+        std::process::exit(0);
+    }
     std::process::exit(ctx.finish());
 }
